@@ -26,7 +26,7 @@ MIN_BUDGET = 200
 
 TIERS = {
     'quick': {'runs': 16000, 'classes': 8, 'budget_s': 80},
-    'thorough': {'runs': 200000, 'classes': 32, 'budget_s': 1100},
+    'thorough': {'runs': 400000, 'classes': 32, 'budget_s': 1100},
 }
 
 COMPONENTS = {'real': ['pyrtl.synthesize', 'copy_block/clone_wire', '_basic_* generators',
